@@ -216,7 +216,12 @@ pub fn gen_value(rng: &mut Rng) -> V {
 /// A sparse sheet inside a small window placed anywhere the format allows (rows incl. 0 and the format's
 /// last row), with empty rows/columns inside. `max_cells` cells at most; the window is at most 40 × 12.
 pub fn gen_sheet(rng: &mut Rng, fmt: Fmt, name: &str, max_cells: u64) -> LSheet {
-    let mut s = LSheet { name: name.into(), ..Default::default() };
+    let o = gen_origin(rng, fmt);
+    gen_sheet_at(rng, name, max_cells, o)
+}
+
+/// a window (r0, c0, h, w) of at most 40 x 12 cells placed anywhere the format allows
+pub fn gen_origin(rng: &mut Rng, fmt: Fmt) -> (u32, u32, u32, u32) {
     let h = rng.range(1, 40) as u32;
     let w = rng.range(1, 12) as u32;
     let r0 = match rng.below(6) {
@@ -230,6 +235,11 @@ pub fn gen_sheet(rng: &mut Rng, fmt: Fmt, name: &str, max_cells: u64) -> LSheet 
         1 => fmt.max_col() - w + 1,
         _ => rng.below(30) as u32,
     };
+    (r0, c0, h, w)
+}
+
+pub fn gen_sheet_at(rng: &mut Rng, name: &str, max_cells: u64, (r0, c0, h, w): (u32, u32, u32, u32)) -> LSheet {
+    let mut s = LSheet { name: name.into(), ..Default::default() };
     let n = rng.below(max_cells + 1);
     for _ in 0..n {
         let r = r0 + rng.below(h as u64) as u32;
@@ -242,9 +252,12 @@ pub fn gen_sheet(rng: &mut Rng, fmt: Fmt, name: &str, max_cells: u64) -> LSheet 
 pub fn gen_book(rng: &mut Rng, fmt: Fmt, max_sheets: u64, max_cells: u64) -> LBook {
     let n = rng.range(1, max_sheets);
     let mut b = LBook::default();
+    // all sheets of a book live in the same window, so that a header row taken from one sheet does not make
+    // another sheet allocate a huge dense rectangle (ledger D37)
+    let o = gen_origin(rng, fmt);
     for i in 0..n {
         let name = format!("S{}{}", i, rng.pick(&["", "x", " y", "é"]));
-        b.sheets.push(gen_sheet(rng, fmt, &name, max_cells));
+        b.sheets.push(gen_sheet_at(rng, &name, max_cells, o));
     }
     b
 }
